@@ -145,6 +145,7 @@ type Engine struct {
 	fset      posResolver
 	srcCache  map[string][]string
 	InitWarnings []string
+	MaxWitness   int
 	rwSeen    map[[2]int]bool
 	rwQueue   [][2]*term.Term
 }
@@ -209,6 +210,21 @@ func New(prog *ssa.Program, opt Options) (*Engine, error) {
 		}
 	}
 	return e, nil
+}
+
+func (e *Engine) maxWitness() int {
+	if e.MaxWitness > 0 {
+		return e.MaxWitness
+	}
+	return 3
+}
+
+// ResetStats clears per-run statistics, violations and witnesses.
+func (e *Engine) ResetStats() {
+	e.Stats = Stats{PathsByEnd: map[string]int{}, InconReasons: map[string]int{}, Funcs: map[string]bool{}, AssertIDs: map[string]int{}}
+	e.Viol = map[string]*Violation{}
+	e.VOrder = nil
+	e.Witness = nil
 }
 
 func (e *Engine) Close() {
@@ -359,7 +375,7 @@ func (e *Engine) runOnePath(fn *ssa.Function) {
 	switch end.kind {
 	case endNormal:
 		e.Stats.PathsByEnd["normal"]++
-		if len(e.Witness) < 3 {
+		if len(e.Witness) < e.maxWitness() {
 			if sc, ok := e.model(); ok {
 				e.Witness = append(e.Witness, sc)
 			}
@@ -609,9 +625,27 @@ func (e *Engine) assume(c *term.Term) {
 	if c.IsFalse() {
 		panic(pathEnd{kind: endInfeasible, msg: "assume(false)"})
 	}
-	if !e.branch(c) {
+	if e.tpos < len(e.trace) {
+		d := &e.trace[e.tpos]
+		if d.kind != 'f' {
+			panic(internalf("replay divergence: expected assume, trace has %c", d.kind))
+		}
+		e.assertDecision(e.tpos, c)
+		e.pc = append(e.pc, c)
+		e.tpos++
+		return
+	}
+	ok, sure := e.feasible(c)
+	if !sure {
+		e.inconclusive("solver-unknown-assume")
+	}
+	if !ok {
 		panic(pathEnd{kind: endInfeasible, msg: "assume"})
 	}
+	e.trace = append(e.trace, decision{n: 1, alts: []uint64{0}, kind: 'f'})
+	e.assertDecision(e.tpos, c)
+	e.pc = append(e.pc, c)
+	e.tpos++
 }
 
 // choose forks over the integers lo..hi (no constraint).
@@ -830,32 +864,58 @@ func (e *Engine) stmtAt(site string) string {
 	return strings.TrimSpace(lines[line-1])
 }
 
-// assertProp checks an assertion on the current path.
+// assertProp checks an assertion on the current path. Non-constant
+// assertions leave an entry in the decision trace so that replays of the
+// prefix do not query the solver again.
 func (e *Engine) assertProp(id string, c *term.Term) {
-	e.Stats.Obligations++
-	e.Stats.AssertIDs[id]++
+	replay := e.tpos < len(e.trace)
+	if !replay {
+		e.Stats.Obligations++
+		e.Stats.AssertIDs[id]++
+	}
 	if c.IsTrue() {
-		e.Stats.ByRewriting++
+		if !replay {
+			e.Stats.ByRewriting++
+		}
 		return
 	}
 	if c.IsFalse() {
 		e.recordViolation("assert", id, e.where(), "assertion "+id+" is false on this path")
 		panic(pathEnd{kind: endAbandon})
 	}
+	if replay {
+		d := &e.trace[e.tpos]
+		if d.kind != 'a' {
+			panic(internalf("replay divergence: expected assert, trace has %c", d.kind))
+		}
+		e.assertDecision(e.tpos, term.True)
+		e.tpos++
+		if d.alts[0] == 1 {
+			e.assume(c)
+		}
+		return
+	}
 	if e.sdepth != len(e.trace) {
 		panic(internalf("assert: solver stack behind"))
 	}
 	r := e.checkWith(term.Not(c))
+	outcome := uint64(0)
 	switch r {
 	case smt.Unsat:
 		e.Stats.BySolver++
-		return
 	case smt.Sat:
+		outcome = 1
 		e.recordViolation("assert", id, e.where(), "assertion "+id+" can fail", term.Not(c))
+	default:
+		outcome = 2
+		e.inconclusive("solver-unknown-assert:" + id)
+	}
+	e.trace = append(e.trace, decision{n: 1, alts: []uint64{outcome}, kind: 'a'})
+	e.assertDecision(e.tpos, term.True)
+	e.tpos++
+	if outcome == 1 {
 		// continue under the assumption that it holds
 		e.assume(c)
-	default:
-		e.inconclusive("solver-unknown-assert:" + id)
 	}
 }
 
